@@ -3,11 +3,12 @@ the intersection routine returns exactly the crossings.
 
 M: TLC explores the algorithm of _intersection.intersection (spec/Intersect.tla: bounding
    boxes -> 4x4 solve -> closed parameter ranges) for all pairs of a 3-vertex and a 2-vertex
-   lattice polyline, and calculate_design_conditions (spec/DesignCond.tla: close -> vertical
-   probes -> max) for all star-shaped lattice polygons, against the declarative operators of
-   IntersectOps / DesignCondOps.  Named deviations (each must violate its invariant):
-   strict upper parameter bound, np.min for np.max, the removed `assert len(x) <= 2`, and the
-   probe margin 0.1*max(y) on a polygon below the axis (as coded before its repair; thorough tier).
+   lattice polyline, and calculate_design_conditions (spec/DesignCond.tla: close -> per abscissa
+   every edge whose closed x-range contains it -> max) for all star-shaped lattice polygons,
+   against the declarative operators of IntersectOps / DesignCondOps.  Named deviations (each
+   must violate its invariant): strict upper parameter bound, np.min for np.max, the removed
+   `assert len(x) <= 2`, edges that lose the crossing at an end of their x-range (the former
+   line-line solve next to a vertex), the former probe line with margin 0.1*max(y) (thorough).
 R: TLC emits every lattice case (IntersectGen, DesignCond/GenSpec); each is run through the
    real functions.
 V: spec/Trace_C17.tla judges every execution: lattice cases against the rational expectation,
@@ -16,6 +17,7 @@ V: spec/Trace_C17.tla judges every execution: lattice cases against the rational
 """
 import math
 import warnings
+from fractions import Fraction
 
 import numpy as np
 
@@ -133,19 +135,20 @@ def dcl_record(cdc, case):
 
 
 def hits_at(x, xc, yc):
-    """ordinates of all edges of the closed polygon (xc, yc closed) spanning abscissa x, and -
-    separately - the ordinate intervals of the (nearly) vertical edges there: on an edge whose
-    abscissae differ by less than 1e-9 of the extent the ordinate at x is not determined in
-    floating point (every point of it is at x within round-off)"""
+    """ordinates of all edges of the closed polygon (xc, yc closed) whose closed x-range contains the
+    abscissa x - exact rational arithmetic on the float vertices (fractions.Fraction), rounded once
+    at the end - and, separately, the ordinate intervals of the (nearly) vertical edges there: on an
+    edge whose abscissae differ by less than 1e-9 of the extent the ordinate at x is not determined
+    in floating point (every point of it is at x within round-off)"""
     out, steep = [], []
     w = float(np.max(xc) - np.min(xc))
-    for i in range(len(xc) - 1):
-        xa, xb, ya, yb = xc[i], xc[i + 1], yc[i], yc[i + 1]
-        if min(xa, xb) <= x <= max(xa, xb):
-            if abs(xb - xa) <= 1e-9 * w:
-                steep.append([min(ya, yb), max(ya, yb)])
-            else:
-                out.append(ya + (x - xa) * (yb - ya) / (xb - xa))
+    for i in np.nonzero((np.minimum(xc[:-1], xc[1:]) <= x) & (x <= np.maximum(xc[:-1], xc[1:])))[0]:
+        xa, xb, ya, yb = float(xc[i]), float(xc[i + 1]), float(yc[i]), float(yc[i + 1])
+        if abs(xb - xa) <= 1e-9 * w:
+            steep.append([min(ya, yb), max(ya, yb)])
+        else:
+            fa, fb = Fraction(xa), Fraction(xb)
+            out.append(float(Fraction(ya) + (Fraction(x) - fa) * (Fraction(yb) - Fraction(ya)) / (fb - fa)))
     return out, steep
 
 
@@ -302,6 +305,18 @@ def steps_variants(rng, coords, swap):
     yield "list", [float(v) for v in mixed]
     vert = rng.choice(xcol, size=min(len(xcol), 5), replace=False)        # exactly at vertex abscissae
     yield "list", [float(v) for v in vert] + [float(lo), float(hi)]
+    # within 1..3 ulp of vertex abscissae (the crossing with the adjacent edge lies within round-off of
+    # the vertex), and the polygon's own x-coordinates as steps
+    pick = rng.choice(xcol, size=min(len(xcol), 10), replace=False)
+    near = []
+    for v in pick:
+        for direction in (-np.inf, np.inf):
+            u = float(v)
+            for _ in range(int(rng.integers(1, 4))):
+                u = float(np.nextafter(u, direction))
+            near.append(u)
+    yield "list", near, "ulp"
+    yield "list", [float(v) for v in xcol], "own"
     # integer-typed explicit steps: list of ints, range, int64 / int32 array, mixed int / float, tuple
     ints = list(range(int(math.ceil(lo)) - 1, int(math.floor(hi)) + 2))
     if len(ints) >= 3:
@@ -322,10 +337,16 @@ def steps_variants(rng, coords, swap):
         yield "list", [float(v) for v in ints], ("floatarray" if rng.random() < 0.5 else "tuple")
 
 
-def dcf_cases(ctx, vc, rng):
+def dcf_cases(ctx, vc, rng, lattice_polys=()):
     nstar = ctx.pick(150, 1000)
     ncont = ctx.pick(45, 300)
     polys = [("star", star_polygon(rng)) for _ in range(nstar)] + model_contours(vc, rng, ncont)
+    # emitted lattice polygons as float polygons (halved / scaled and shifted): they get the same step
+    # kinds, in particular "within a few ulp of a vertex abscissa" and "the polygon's own x-coordinates"
+    for k, poly in enumerate(lattice_polys):
+        unit, ox, oy = [(0.5, 0.0, 0.0), (0.1, 0.3, 1.7), (0.7, -2.0, -1.0), (1.0 / 3.0, 5.0, 0.25)][k % 4]
+        P = np.asarray(poly, dtype=float)
+        polys.append(("lattice", np.c_[P[:, 0] * unit + ox, P[:, 1] * unit + oy]))
     for idx, (src, co) in enumerate(polys):
         for swap in (False, True):
             for var in steps_variants(rng, co, swap):
@@ -511,12 +532,15 @@ def run(ctx):
                 "calculate_design_conditions, plus scaled / shifted copies; seeded random: integer polylines on "
                 "0..100, star-shaped non-convex float polygons and IFORM / ISORM / direct-sampling contours of "
                 "random 2-D models x steps None / int / lists inside, outside, at vertex abscissae, integer-typed "
-                "(int list, range, int64 / int32 array, mixed, tuple) x swap_axis; every history of 4 (quick) / 5 "
+                "(int list, range, int64 / int32 array, mixed, tuple), within 1-3 ulp of vertex abscissae, the polygon's "
+                "own x-coordinates x swap_axis (also for every 16th (quick) / 12th (thorough) emitted lattice "
+                "polygon as a float polygon); every history of 4 (quick) / 5 "
                 "(thorough) operations call / call swapped / assign new coordinates / modify in place on ONE "
                 "contour object, emitted by TLC (DesignCondHist). "
                 "distinct = distinct call; non-trivial = at least one returned point / row")
     ctx.trusted = ["TLC 1.8 evaluating spec/IntersectOps.tla, spec/DesignCondOps.tla, spec/Trace_C17.tla",
-                   "harness/c17.py hits_at(): one-line interpolation of every polygon edge spanning an abscissa",
+                   "harness/c17.py hits_at(): exact rational interpolation (fractions.Fraction) on the float vertices of "
+                   "every polygon edge whose closed x-range contains the abscissa",
                    "fixed-point projection Q/Qc; mapping of scaled lattice results back to lattice units"]
     ctx.assumptions = ["contour objects are stand-ins with a .coordinates attribute (the only thing the function reads)",
                        "clause ClosedRange (touching end points are reported) is judged on exact lattice inputs only; "
@@ -532,6 +556,7 @@ def run(ctx):
                     must_cover=("Close", "Probe", "Finish"), timeout=3000)
     ctx.model_check("DesignCond", "MC_DesignCond_min.cfg", expect_violation="DesignHolds")
     ctx.model_check("DesignCond", "MC_DesignCond_assert.cfg", expect_violation="NoError")
+    ctx.model_check("DesignCond", "MC_DesignCond_openends.cfg", expect_violation="DesignHolds")
     if not q:
         ctx.model_check("DesignCond", "MC_DesignCond_neg.cfg", expect_violation="DesignHolds")
         ctx.model_check("DesignCond", "MC_DesignCond_negfix.cfg", must_cover=("Probe",))
@@ -560,7 +585,13 @@ def run(ctx):
     ctx.sample({"emitted": gen2[len(gen2) // 2], "record": recs2[len(gen2) // 2]})
     ctx.notes["lattice_polygon_cases"] = len(gen2)
     # V: float polygons
-    fc = list(dcf_cases(ctx, vc, rng))
+    seen, lat = set(), []
+    for g in gen2:
+        t = tuple(map(tuple, g["poly"]))
+        if t not in seen:
+            seen.add(t)
+            lat.append(g["poly"])
+    fc = list(dcf_cases(ctx, vc, rng, lat[::ctx.pick(16, 12)]))
     # R + V: histories on one contour object (call / assign / modify in place / call again)
     ctx.model_check("DesignCondHist", "MC_DesignCondHist_keep.cfg", expect_violation="UsesCurrent")
     gen3 = ctx.generate("DesignCondHist", ctx.pick("Gen_DesignCondHist_quick.cfg", "Gen_DesignCondHist_thorough.cfg"))
